@@ -3,6 +3,7 @@ package stick
 import (
 	"bytes"
 	"io"
+	"io/ioutil"
 	"os"
 	"path/filepath"
 )
@@ -49,8 +50,8 @@ func (l *MemoryLoader) Load(name string) (Template, error) {
 }
 
 type fileTemplate struct {
-	name   string
-	reader io.Reader
+	name     string
+	contents []byte
 }
 
 func (t *fileTemplate) Name() string {
@@ -58,7 +59,7 @@ func (t *fileTemplate) Name() string {
 }
 
 func (t *fileTemplate) Contents() io.Reader {
-	return t.reader
+	return bytes.NewReader(t.contents)
 }
 
 // A FilesystemLoader loads templates from a filesystem.
@@ -75,9 +76,16 @@ func NewFilesystemLoader(rootDir string) *FilesystemLoader {
 // configured root directory.
 func (l *FilesystemLoader) Load(name string) (Template, error) {
 	path := filepath.Join(l.rootDir, name)
+	// The file is read here and closed again: a Template only hands out an
+	// io.Reader, so nobody could close an open file later.
 	f, err := os.Open(path)
 	if err != nil {
 		return nil, err
 	}
-	return &fileTemplate{name, f}, nil
+	defer f.Close()
+	contents, err := ioutil.ReadAll(f)
+	if err != nil {
+		return nil, err
+	}
+	return &fileTemplate{name, contents}, nil
 }
